@@ -31,11 +31,12 @@ import (
 
 // Case is one generated case of any of the four kinds.
 type Case struct {
-	Kind  string     `json:"kind"`
-	Maps  *MapsCase  `json:"maps,omitempty"`
-	Read  *ReadCase  `json:"read,omitempty"`
-	Write *WriteCase `json:"write,omitempty"`
-	Load  *LoadCase  `json:"load,omitempty"`
+	Kind   string      `json:"kind"`
+	Maps   *MapsCase   `json:"maps,omitempty"`
+	Read   *ReadCase   `json:"read,omitempty"`
+	Write  *WriteCase  `json:"write,omitempty"`
+	Load   *LoadCase   `json:"load,omitempty"`
+	Config *ConfigCase `json:"config,omitempty"`
 }
 
 // Node is one entry of a nested map: either a leaf or a non-empty sub-map.
@@ -103,6 +104,8 @@ func Exec(c Case) hx.Verdict {
 			return execWrite(*c.Write)
 		case c.Load != nil:
 			return execLoad(c)
+		case c.Config != nil:
+			return execConfig(*c.Config)
 		}
 		return hx.Fail("harness", "empty case")
 	})
@@ -627,6 +630,15 @@ func execWrite(c WriteCase) hx.Verdict {
 
 const loadWatchdog = 90 * time.Second
 
+// watchdogOf: the first load of a directory gets the long watchdog (a timeout there is not judged),
+// a reload of a directory that was just loaded completely gets 20 s (a timeout there is a violation).
+func watchdogOf(rep int) time.Duration {
+	if rep > 0 {
+		return 20 * time.Second
+	}
+	return loadWatchdog
+}
+
 var gmpMu sync.Mutex
 
 func execLoad(full Case) hx.Verdict {
@@ -726,7 +738,14 @@ func execLoad(full Case) hx.Verdict {
 		go func() { done <- fsi18loader.Load(fs, c.Base, i18, nil) }()
 		select {
 		case err = <-done:
-		case <-time.After(loadWatchdog):
+		case <-time.After(watchdogOf(rep)):
+			if rep > 0 {
+				// the same directory was loaded completely a moment ago: a reload that never returns makes
+				// no key translatable (something the first load left behind - an open file - blocks it)
+				f := hx.Fail("reload-returns", "run %d: Load of a directory that run %d had loaded completely did not return within %v (%d files)", rep, rep-1, watchdogOf(rep), len(c.Files))
+				f.Step = rep
+				return f
+			}
 			// the statement does not promise progress in so many words: not judged
 			v.Inconclusive = true
 			v.Label("load:watchdog")
